@@ -141,6 +141,11 @@ class C07(Harness):
             us.append({'kind': 'override', 'spec': [[2, '=1'], ['tb/', 2, '=1']]})
         for lines in (LINES_Q if tier == 'quick' else LINES_T):
             us.append({'kind': 'text', 'lines': lines})
+        # directive names of the length of the real ones, symbolic (case variants of define / import / include
+        # and everything else of that length), with an argument
+        for lines in ([['%', 6, ' a b']], [['%', 7, ' b.conf']], [['%', 6, ' vfq_a']],
+                      [['<ta n>'], ['  %', 6, ' a 1'], ['</ta>']]):
+            us.append({'kind': 'text', 'lines': lines})
         # the vocabulary-sized templates also against schemas with single wildcard slots, abstract
         # types and nesting
         for sid in ('S3', 'S4', 'S6') if tier == 'quick' else ('S3', 'S4', 'S6', 'S8', 'S9', 'S13'):
